@@ -22,6 +22,7 @@ func init() {
 			"R3: DryRun/MeasurementOnly are never stored to, and their address is taken only in package cmd, where it flows to nothing but the destination argument of pflag's BoolVar/BoolVarP (directly or through helpers of package cmd; never stored or handed to another flag's parser), which justifies treating all loads as one flag. " +
 			"R4: what is printed under measurement-only and what SignDoc signs derive from one GoldenMeasurement call result. " +
 			"R5: the dry_run / measurement_only flags are bound to the DryRun / MeasurementOnly fields of the very Context installed with endorse.NewContext. " +
+			"R8: the endorse command's methods in package cmd and the functions of that package they reach make no direct file-system mutation (os.WriteFile, Create, OpenFile for writing, Mkdir*, Remove*, Rename …). " +
 			"R7: the printers of measurement-only mode look the per-count measurement map up only under the count the request names (or range over the map itself), never under a fixed table of counts. " +
 			"R6: the mode flags do not shape what is measured and signed: no decision in GoldenMeasurement's call closure derives from DryRun/MeasurementOnly, and no store to a Context field that closure reads is conditional on a mode flag. " +
 			"Not covered: equality of reported values as bytes; side effects inside VersionControl implementations' ReleasePath/Result (pure by interface contract).",
@@ -315,6 +316,75 @@ func runC15(c *Ctx) {
 			}
 		}
 		c.S.Floor("R7", "measurement map reads (lookups, ranges) in the printers of package endorse", 1, nLook)
+	}
+
+	// ---- R8: the command layer writes no file of its own ----
+	// Everything the endorse command persists goes through VersionControl / ChangeOps, which R1 gates. The methods of
+	// the endorse command in package cmd and the functions of that package they reach make no direct file-system
+	// mutation (os.WriteFile, Create, OpenFile for writing, Mkdir*, Remove*, Rename, Chmod, Truncate, Symlink, Link):
+	// such a write would happen in every mode, whatever DryRun / MeasurementOnly say. Expected count zero; canary
+	// mutant C15-cmd-writes-sidecar.
+	{
+		// the endorse command: the receiver type(s) of package cmd one of whose methods installs the endorse context
+		cmdTypes := map[*types.TypeName]bool{}
+		newCtx := c.P.Func("endorse", "NewContext")
+		for _, f := range c.P.RepoFunctions() {
+			if load.RelPkg(f) != "cmd" || c.isTestFunc(f) || f.Signature.Recv() == nil || newCtx == nil {
+				continue
+			}
+			if len(callsIn(f, func(call ssa.CallInstruction) bool { return call.Common().StaticCallee() == newCtx })) == 0 {
+				continue
+			}
+			rt := f.Signature.Recv().Type()
+			if p, ok := rt.(*types.Pointer); ok {
+				rt = p.Elem()
+			}
+			if n, ok := rt.(*types.Named); ok {
+				cmdTypes[n.Obj()] = true
+			}
+		}
+		var roots []*ssa.Function
+		for _, f := range c.P.RepoFunctions() {
+			if load.RelPkg(f) != "cmd" || c.isTestFunc(f) || f.Signature.Recv() == nil {
+				continue
+			}
+			rt := f.Signature.Recv().Type()
+			if p, ok := rt.(*types.Pointer); ok {
+				rt = p.Elem()
+			}
+			if n, ok := rt.(*types.Named); ok && cmdTypes[n.Obj()] {
+				roots = append(roots, f)
+			}
+		}
+		c.S.Floor("R8", "methods of the endorse command in package cmd", 3, len(roots))
+		clo := c.reachable(roots, func(f *ssa.Function) bool { return load.FuncInRepo(f) && load.RelPkg(f) == "cmd" && !c.isTestFunc(f) })
+		nBad := 0
+		for g := range clo {
+			for _, call := range callsIn(g, func(call ssa.CallInstruction) bool {
+				cal := call.Common().StaticCallee()
+				if cal == nil || cal.Pkg == nil || cal.Pkg.Pkg.Path() != "os" {
+					return false
+				}
+				switch cal.Name() {
+				case "WriteFile", "Create", "CreateTemp", "Mkdir", "MkdirAll", "MkdirTemp", "Remove", "RemoveAll", "Rename", "Chmod", "Chown", "Truncate", "Symlink", "Link":
+					return true
+				case "OpenFile":
+					if k, ok := call.Common().Args[1].(*ssa.Const); ok && k.Value != nil {
+						oW, ok1 := c.extConstInt("os", "O_WRONLY")
+						oRW, ok2 := c.extConstInt("os", "O_RDWR")
+						return !(ok1 && ok2) || k.Int64()&(oW|oRW) != 0
+					}
+					return true
+				}
+				return false
+			}) {
+				nBad++
+				c.S.Bad("R8", load.FuncName(g)+":direct file-system write "+callName(call), c.pos(call.Pos()), "the endorse command layer writes to the file system directly ("+callName(call)+"): the write is outside the VersionControl / ChangeOps path that the mode flags gate, so a dry or measurement-only run can leave files behind")
+			}
+		}
+		if nBad == 0 {
+			c.S.OK("R8", "cmd:endorse command layer makes no direct file-system write", "", fmt.Sprintf("%d functions of package cmd reached from the endorse command", len(clo)), true)
+		}
 	}
 
 	// ---- R5: flag wiring ----
